@@ -305,8 +305,9 @@ def _is_allowed_peripheral(func_current, peripheral_previous, mfl_funcs):
         n_prev = []
     if not n_prev:
         return n == min(n_all)
+    # Only the count following the largest one already added is allowed
     n_index = n_all.index(n)
-    return n_index > 0 and n_all[n_index - 1] < n
+    return n_index > 0 and n_all[n_index - 1] == max(n_prev) < n
 
 
 def _update_name_and_description(name, features, me):
